@@ -424,8 +424,8 @@ class Particle(BaseParticle, AmpBase):
             q = data_c["|q|"]
             q0 = data_c["|q0|"]
             if self.bw_l is None:
-                decay = self.decay[0]
-                self.bw_l = min(decay.get_l_list())
+                # lowest l over all decays: independent of declaration order
+                self.bw_l = min(d.get_min_l() for d in self.decay)
             ret = BWR(data["m"], mass, width, q, q0, self.bw_l, self.d)
             # ret = tf.where(q0 > 0, ret, tf.zeros_like(ret))
             # ret = tf.where(q > 0, ret, tf.zeros_like(ret))
@@ -508,8 +508,8 @@ class Particle(BaseParticle, AmpBase):
             return BW_dom(m, m0, g0)
         else:
             if self.bw_l is None:
-                decay = self.decay[0]
-                self.bw_l = min(decay.get_l_list())
+                # lowest l over all decays: independent of declaration order
+                self.bw_l = min(d.get_min_l() for d in self.decay)
             return BWR_dom(
                 m, m0, g0, self.bw_l, m1, m2, d=getattr(self, "d", 3.0)
             )
